@@ -67,6 +67,7 @@ class Ctx:
         return os.path.join(WORK, "facts", "%s-%s.json" % (self.digest, config))
 
     def prog(self, config="full"):
+        config = getattr(self, "alias", {}).get(config, config)
         if config in self._progs:
             return self._progs[config]
         out = self.facts_path(config)
@@ -146,6 +147,20 @@ def main(argv=None):
                           "the %s feature configuration of /repo does not build" % e.config, loc=e.log)
         except AnchorError as e:
             rep.violation("ANCHOR", "anchor:%s" % str(e)[:80], "anchor missing: %s" % e)
+    if tier == "thorough" and not getattr(mod, "MULTI_CONFIG", False) and pid not in ("C18", "C20"):
+        # rules written against the `full` configuration are re-run on the SIMD configuration
+        # (nightly,simd_backend,serde,base64): same source, other cfg branches and BLAKE2b backend
+        try:
+            ctx.alias = {"full": "simd"}
+            rep.tag = "[simd]"
+            mod.run(ctx, rep)
+        except BuildFailed as e:
+            rep.violation("BUILD", "configuration:%s" % e.config, "the %s configuration does not build" % e.config, loc=e.log)
+        except AnchorError as e:
+            rep.violation("ANCHOR", "anchor[simd]:%s" % str(e)[:80], "anchor missing in the simd configuration: %s" % e)
+        finally:
+            ctx.alias = {}
+            rep.tag = ""
     if tier == "thorough" and os.environ.get("VERIF_SKIP_CONTROLS") != "1" and args.repo == REPO:
         # controls: seeded breaks on a scratch copy must make this property's rules fire; behaviour-
         # preserving refactors must stay silent.  Evidence about the checker, not part of the verdict.
